@@ -95,6 +95,10 @@ def pts_exporter(pointcloud, file_handle, **kwargs):
         The file to write in to
     """
     pts = pointcloud.points
+    if pts.shape[1] != 2:
+        raise ValueError(
+            "The PTS format can only hold 2D points, {}D given".format(pts.shape[1])
+        )
     # Swap the x and y axis and add 1 to undo our processing
     # We are assuming (as on import) that the landmark file was created using
     # Matlab which is 1 based
